@@ -347,8 +347,12 @@ impl Ctx<'_> {
                     return Ok(j);
                 }
                 why = format!(
-                    "new state {} is not the point at exactly the maximum step on the segment from the nearest node toward the sample: d(near,new)={drs}, max step {md}, on-segment={on}",
-                    fmt_state(s)
+                    "new state {} is not the point at exactly the maximum step on the segment from the nearest node toward the sample: d(near,new)={drs}, max step {md}, on-segment={on} (d(new,sample)={}, d(near,sample)={dmin}, near={:?}, sample={:?}, new={:?})",
+                    fmt_state(s),
+                    g.d(s, q),
+                    r,
+                    q,
+                    s
                 );
             }
         }
